@@ -11,6 +11,7 @@ import (
 
 	"github.com/openacid/slim/index"
 
+	ft "slimverif/harness/fam/trie"
 	"slimverif/harness/gen"
 	"slimverif/harness/lp"
 )
@@ -135,6 +136,107 @@ func genC12(c *lp.Ctx) {
 	}
 }
 
+// genC02viaIndex: property C02 through package index: with block offsets,
+// SlimIndex.RangeGet returns the stored record of every indexed key.
+func genC02viaIndex(c *lp.Ctx) {
+	n := c.Pick(120, 1200)
+	for it := 0; it < n; it++ {
+		ks := gen.Any(c.Rng, c.Pick(150, 600))
+		if len(ks.Keys) == 0 {
+			continue
+		}
+		var sb strings.Builder
+		sb.WriteString("idx.new")
+		off := int64(0)
+		left := 0
+		bs := 1 + c.Rng.Intn(64)
+		for i, k := range ks.Keys {
+			if left == 0 {
+				off += 4096
+				left = 1 + c.Rng.Intn(bs)
+			}
+			left--
+			fmt.Fprintf(&sb, " %s %d %s", lp.XS(k), off, lp.XS(fmt.Sprintf("v%d", i)))
+		}
+		line := sb.String()
+		c.Case(fmt.Sprintf("idxblock|%d|%d|%s", bs, len(ks.Keys), ks.Class), len(ks.Keys) >= 3)
+		c.Hit("via-index:" + ks.Class)
+		if got := c.Do(line); got != "ok" {
+			continue
+		}
+		for i, k := range ks.Keys {
+			l := "idx.rget " + lp.XS(k)
+			want := "f " + lp.XS(fmt.Sprintf("v%d", i))
+			if got := c.Do(l); got != want {
+				c.Violate(lp.Violation{What: "SlimIndex.RangeGet on an indexed key of a block", Script: []string{line, l}, Expected: want, Got: got})
+			}
+		}
+	}
+}
+
+// genC12boundary: growing record sets whose trie's label bitmaps end exactly on
+// a 64-bit word boundary (found by building directly and inspecting the shape).
+func genC12boundary(c *lp.Ctx) {
+	budget := c.Pick(6, 40)
+	found := 0
+	kinds := map[byte]int{}
+	for tries := 0; found < budget && tries < 120*budget; tries++ {
+		var ks gen.KeySet
+		switch c.Rng.Intn(4) {
+		case 0, 3:
+			ks = gen.Regular(c.Rng, 300)
+		case 1:
+			ks = gen.ShortTable(c.Rng, 2+c.Rng.Intn(2), 1+c.Rng.Intn(3))
+		default:
+			ks = gen.Random(c.Rng, 200, 5)
+		}
+		if len(ks.Keys) < 8 {
+			continue
+		}
+		lo := len(ks.Keys) - 70
+		if lo < 4 {
+			lo = 4
+		}
+		for k := lo; k <= len(ks.Keys) && found < budget; k++ {
+			var sb strings.Builder
+			sb.WriteString("idx.new")
+			for i, key := range ks.Keys[:k] {
+				fmt.Fprintf(&sb, " %s %d %s", lp.XS(key), int64(i)*7-3, lp.XS(fmt.Sprintf("v%d", i)))
+			}
+			line := sb.String()
+			if lp.Exec(line) != "ok" || cur == nil {
+				continue
+			}
+			bl, last, ok := ft.InnersShape(&cur.SlimTrie)
+			if !ok || bl%64 != 0 {
+				continue
+			}
+			// every kind of last node, short ones in particular
+			if last != 's' && kinds[last] >= budget/3 {
+				continue
+			}
+			kinds[last]++
+			found++
+			c.Case(fmt.Sprintf("boundary|%d|%c|%s", k, last, ks.Class), true)
+			c.Hit(fmt.Sprintf("boundary:inners-bits%%64=0,last=%c", last))
+			c.Op(line, "ok")
+			for i := k - 1; i >= 0 && i >= k-10; i-- {
+				l := "idx.get " + lp.XS(ks.Keys[i])
+				want := "f " + lp.XS(fmt.Sprintf("v%d", i))
+				if got := c.Do(l); got != want {
+					c.Violate(lp.Violation{What: "SlimIndex.Get on an indexed key (bitmap ends at a word boundary)", Script: []string{line, l}, Expected: want, Got: got})
+				}
+			}
+			for _, q := range gen.Queries(c.Rng, ks.Keys[k-min(k, 5):k], 20) {
+				l := "idx.get " + lp.XS(q)
+				if got := c.Do(l); got == "panic" {
+					c.Violate(lp.Violation{What: "SlimIndex.Get must not panic", Script: []string{line, l}, Expected: "an answer", Got: got})
+				}
+			}
+		}
+	}
+}
+
 func min(a, b int) int {
 	if a < b {
 		return a
@@ -145,4 +247,6 @@ func min(a, b int) int {
 func init() {
 	lp.Register("idx", interp)
 	lp.RegisterGen("C12", genC12)
+	lp.RegisterGen("C12", genC12boundary)
+	lp.RegisterGen("C02", genC02viaIndex)
 }
